@@ -1,5 +1,867 @@
-"""C03.DFA placeholder: transducer extraction of Cursor::advance (thorough tier), to be written."""
+"""C03.DFA — the lexer's `advance` state machine, extracted from the type-checked HIR by abstract
+interpretation over a symbolic cursor, compared with a reference machine of the lexical grammar by
+exploring the product of the two machines (bisimulation up to the first error of a token).
+
+Nothing is executed: `Cursor::advance`, `eof`, `done` and `unterminated_spread_operator` are
+*interpreted* from HIR-lite.  The interpreter knows a closed vocabulary:
+  * pure predicates and tables (folded by patset.Evaluator from their own source),
+  * the Cursor primitives bump / eatc / is_pending / current_str / prev_str / drain / add_err /
+    err / index, whose meaning over the symbolic cursor is written below (trusted vocabulary; their
+    bodies are covered by C02/C03.PARTITION and the C01 inventory),
+  * assignments to `state`, `token.kind`, `token.data`, control flow, Ok/Err, opaque strings.
+Anything else raises Undecided (fail closed).
+
+Symbolic cursor for one token: the list of symbols *pulled* from the character iterator since the
+token started and a `pending` flag (the last pulled symbol is pushed back).  A lexeme is described
+by `back` = how many trailing pulled symbols are not part of it (0 or 1).
+"""
+from ..core import Undecided
+from ..patset import Char, EnumVal, Evaluator
+
+EOF = -1
 
 
-def run(prog, rep, ev):
-    rep.note("C03.DFA: transducer extraction not built yet; thorough tier currently equals quick tier")
+class NeedMore(Exception):
+    pass
+
+
+class _Continue(Exception):
+    pass
+
+
+class _Return(Exception):
+    def __init__(self, v):
+        self.v = v
+
+
+class Opaque:
+    def __init__(self, what):
+        self.what = what
+
+    def __repr__(self):
+        return "<%s>" % self.what
+
+
+class Lexeme:
+    def __init__(self, back, rest=False):
+        self.back = back
+        self.rest = rest  # drain(): everything up to the end of input
+
+
+class TokenVal:
+    def __init__(self, kind, data=None):
+        self.kind = kind
+        self.data = data
+
+    def copy(self):
+        return TokenVal(self.kind, self.data)
+
+
+class ErrVal:
+    def __init__(self, data=None, deferred=False):
+        self.data = data
+        self.deferred = deferred
+
+
+class Cur:
+    """symbolic cursor + oracle"""
+
+    def __init__(self, pending_sym, err, feed, on_pull, surrogate_oracle):
+        self.pending = pending_sym  # None or symbol
+        self.err = err  # deferred error present
+        self.feed = list(feed)
+        self.pos = 0
+        self.pulled = 0  # symbols pulled in this iteration
+        self.on_pull = on_pull
+        self.surrogate_oracle = surrogate_oracle
+        self.at_eof = False
+        self.problems = []
+
+    def pull(self):
+        if self.at_eof:
+            return EOF
+        if self.pos >= len(self.feed):
+            raise NeedMore()
+        s = self.feed[self.pos]
+        self.pos += 1
+        if s == EOF:
+            self.at_eof = True
+        else:
+            self.pulled += 1
+        self.on_pull(s)
+        return s
+
+
+class LexInterp:
+    def __init__(self, prog):
+        self.prog = prog
+        self.ev = Evaluator(prog, "apollo_parser")
+        self.fn_advance = prog.fn(r"lexer::<impl apollo_parser::lexer::cursor::Cursor<'a>>::advance$")
+        self.b_advance = prog.hir_body(self.fn_advance)
+        self.b_eof = prog.hir_body(prog.fn(r"lexer::<impl apollo_parser::lexer::cursor::Cursor<'a>>::eof$"))
+        self.b_done = prog.hir_body(prog.fn(r"lexer::<impl apollo_parser::lexer::cursor::Cursor<'a>>::done$"))
+        self.b_unterm = prog.hir_body(prog.fn(r"lexer::<impl apollo_parser::lexer::cursor::Cursor<'a>>::unterminated_spread_operator$"))
+        body = self.b_advance["body"]
+        # shape: let mut state = State::Start; let mut token = Token{..}; loop { let Some(c) = self.bump() else { return self.eof(state, token) }; match state {..} }
+        st = body.get("stmts", [])
+        lp = body.get("expr")
+        if len(st) != 2 or not lp or lp.get("k") != "loop":
+            raise Undecided("Cursor::advance is no longer `let state; let token; loop {..}`")
+        self.id_state = st[0]["pat"]["id"]
+        self.id_token = st[1]["pat"]["id"]
+        self.init_state = self._pure(st[0]["init"], {})
+        tk = st[1]["init"]
+        if tk.get("k") != "struct":
+            raise Undecided("token is not initialised with a struct expression")
+        kinds = [f for f in tk["fields"] if f[0] == "kind"]
+        self.init_kind = self._pure(kinds[0][1], {})
+        lb = lp["body"]
+        if len(lb.get("stmts", [])) != 1 or lb["stmts"][0].get("k") != "slet" or (lb.get("expr") or {}).get("k") != "match":
+            raise Undecided("the lexer loop is no longer `let Some(c) = self.bump() else {..}; match state {..}`")
+        self.bump_let = lb["stmts"][0]
+        if self.bump_let["init"].get("m") != "bump" or self.bump_let["pat"].get("k") != "tstruct":
+            raise Undecided("loop head is not `let Some(c) = self.bump()`")
+        self.id_c = self.bump_let["pat"]["subs"][0]["id"]
+        self.match_state = lb["expr"]
+        self.self_id = self.b_advance["params"][0]["id"]
+
+    # ---------------------------------------------------------------- values
+    def _pure(self, e, env):
+        """pure expression through the table evaluator; env is keyed by local *name*"""
+        return self.ev.eval(e, env)
+
+    # ---------------------------------------------------------------- interpreter
+    def iterate(self, state, kind, cur):
+        """one loop iteration from the loop head; returns ('cont', state, kind) or
+        ('end', 'ok'|'err', kind, Lexeme|None)"""
+        env = {self.id_state: state, self.id_token: TokenVal(kind), self.self_id: "SELF"}
+        self.cur = cur
+        try:
+            c = self.bump()
+            if c == EOF:
+                r = self.call_local(self.b_eof, [env[self.id_state], env[self.id_token]])
+                return self._end(r)
+            env[self.id_c] = Char(c)
+            try:
+                self.eval(self.match_state, env)
+            except _Continue:
+                pass
+            return ("cont", env[self.id_state], env[self.id_token].kind)
+        except _Return as r:
+            return self._end(r.v)
+
+    def _end(self, v):
+        if isinstance(v, EnumVal) and v.variant == "Ok" and isinstance(v.payload[0], TokenVal):
+            t = v.payload[0]
+            return ("end", "ok", t.kind, t.data)
+        if isinstance(v, EnumVal) and v.variant == "Err":
+            e = v.payload[0]
+            return ("end", "err", None, e.data if isinstance(e, ErrVal) else None)
+        raise Undecided("advance returns something else than Ok(token) / Err(error): %r" % (v,))
+
+    # cursor vocabulary ------------------------------------------------------
+    def bump(self):
+        cur = self.cur
+        if cur.pending is not None:
+            s = cur.pending
+            cur.pending = None
+            return s
+        return cur.pull()
+
+    def eatc(self, ch):
+        cur = self.cur
+        if cur.pending is not None:
+            cur.problems.append("eatc is called while a character is pending (the code panics there)")
+            raise Undecided("eatc with a pending character")
+        s = cur.pull()
+        if s == EOF:
+            return False
+        if s == int(ch):
+            return True
+        cur.pending = s
+        return False
+
+    def current_str(self):
+        cur = self.cur
+        # includes every pulled symbol (a pending one is swallowed into the lexeme); the next
+        # symbol is pulled only as a look-ahead that stays pending, which is equivalent to not
+        # pulling it for everything the token machine can observe
+        cur.pending = None
+        return Lexeme(0)
+
+    def prev_str(self):
+        cur = self.cur
+        if cur.at_eof:
+            # offset stays at the last pulled symbol: the slice excludes it
+            pass
+        cur.pending = "LAST"
+        return Lexeme(1)
+
+    def drain(self):
+        self.cur.pending = None
+        return Lexeme(0, rest=True)
+
+    # generic evaluation -----------------------------------------------------
+    def call_local(self, body, args):
+        env = {"self": "SELF"}
+        ps = body["params"]
+        vals = ["SELF"] + list(args)
+        for p, v in zip(ps, vals):
+            if p.get("k") != "bind":
+                raise Undecided("parameter pattern in %s" % body["name"])
+            env[p["id"]] = v.copy() if isinstance(v, TokenVal) else v
+        try:
+            return self.eval(body["body"], env)
+        except _Return as r:
+            return r.v
+
+    def lookup(self, r, env):
+        if r[0] == "local":
+            if r[2] in env:
+                return env[r[2]]
+            raise Undecided("unbound local %s" % r[1])
+        raise Undecided("path %s" % (r,))
+
+    def bindpat(self, p, v, env):
+        k = p.get("k")
+        if k == "_":
+            return True
+        if k == "bind":
+            if p.get("sub") is not None and not self.bindpat(p["sub"], v, env):
+                return False
+            env[p["id"]] = v
+            return True
+        if k == "ref":
+            return self.bindpat(p["p"], v, env)
+        if k in ("lit", "range", "or") and isinstance(v, (int, str, bool)):
+            if k == "or":
+                return any(self.bindpat(q, v, env) for q in p["pats"])
+            return self.ev.bind(p, v, {})
+        if k == "or":
+            return any(self.bindpat(q, v, env) for q in p["pats"])
+        if k in ("tstruct", "path", "struct"):
+            from ..tables import variant_name_of_pat
+            vn = variant_name_of_pat(p)
+            if not isinstance(v, EnumVal):
+                raise Undecided("enum pattern against %r" % (v,))
+            if vn != v.variant:
+                return False
+            subs = p.get("subs") or []
+            return all(self.bindpat(s, x, env) for s, x in zip(subs, v.payload))
+        raise Undecided("pattern kind %s in the lexer" % k)
+
+    def has_effect(self, e):
+        from ..hirq import walk
+        for n in walk(e):
+            if n.get("k") == "mcall" and "cursor::Cursor" in (n.get("callee") or ""):
+                return True
+            if n.get("k") in ("assign", "ret", "continue", "break"):
+                return True
+        return False
+
+    def eval(self, e, env):
+        k = e.get("k")
+        if k == "lit":
+            return self.ev.lit(e)
+        if k == "path":
+            r = e.get("res")
+            if r[0] == "local":
+                return self.lookup(r, env)
+            if r[0] == "def" and r[1].startswith("ctor"):
+                return EnumVal((r[4] if len(r) > 4 else r[2]).split("::")[-1])
+            return self.ev.eval(e, {})
+        if k == "block":
+            for s in e.get("stmts", []):
+                sk = s.get("k")
+                if sk == "slet":
+                    v = self.eval(s["init"], env) if s.get("init") is not None else None
+                    if not self.bindpat(s["pat"], v, env):
+                        if s.get("els") is None:
+                            raise Undecided("refutable let without else")
+                        self.eval(s["els"], env)
+                        raise Undecided("let-else fell through")
+                elif sk == "semi":
+                    self.eval(s["e"], env)
+                else:
+                    self.eval(s, env)
+            if e.get("expr") is not None:
+                return self.eval(e["expr"], env)
+            return ()
+        if k == "if":
+            c = e["cond"]
+            if c.get("k") == "let":
+                v = self.eval(c["init"], env)
+                if self.bindpat(c["pat"], v, env):
+                    return self.eval(e["then"], env)
+                return self.eval(e["else"], env) if e.get("else") else ()
+            if self.truth(self.eval(c, env)):
+                return self.eval(e["then"], env)
+            return self.eval(e["else"], env) if e.get("else") else ()
+        if k == "match":
+            v = self.eval(e["scrut"], env)
+            for arm in e["arms"]:
+                if self.bindpat(arm["pat"], v, env):
+                    if arm.get("guard") is not None and not self.truth(self.eval(arm["guard"], env)):
+                        continue
+                    return self.eval(arm["body"], env)
+            raise Undecided("non-exhaustive match in the lexer interpreter")
+        if k == "bin":
+            op = e["op"]
+            if op == "&&":
+                return self.truth(self.eval(e["a"], env)) and self.truth(self.eval(e["b"], env))
+            if op == "||":
+                return self.truth(self.eval(e["a"], env)) or self.truth(self.eval(e["b"], env))
+            a, b = self.eval(e["a"], env), self.eval(e["b"], env)
+            if isinstance(a, Opaque) or isinstance(b, Opaque):
+                if op in ("+", "-"):
+                    return Opaque("arith(%s %s %s)" % (a, op, b))
+                raise Undecided("comparison of opaque values")
+            return {"==": lambda: a == b, "!=": lambda: a != b, "<": lambda: a < b, "<=": lambda: a <= b, ">": lambda: a > b,
+                    ">=": lambda: a >= b, "+": lambda: a + b, "-": lambda: a - b}[op]()
+        if k == "un":
+            a = self.eval(e["a"], env)
+            if e["op"] == "!":
+                return not self.truth(a)
+            if e["op"] == "*":
+                return a
+            raise Undecided("unary %s" % e["op"])
+        if k == "ref":
+            return self.eval(e["e"], env)
+        if k == "assign":
+            v = self.eval(e["rhs"], env)
+            lhs = e["lhs"]
+            if lhs.get("k") == "path" and lhs["res"][0] == "local":
+                env[lhs["res"][2]] = v
+                return ()
+            if lhs.get("k") == "field":
+                base = self.eval(lhs["e"], env)
+                if isinstance(base, TokenVal):
+                    if lhs["name"] == "kind":
+                        base.kind = v
+                    elif lhs["name"] == "data":
+                        base.data = v
+                    elif lhs["name"] == "index":
+                        pass
+                    else:
+                        raise Undecided("assignment to token.%s" % lhs["name"])
+                    return ()
+                if isinstance(base, ErrVal):
+                    return ()  # err.index = ..
+                if base == "SELF":
+                    if lhs["name"] == "err":
+                        if isinstance(v, EnumVal) and v.variant == "None":
+                            self.cur.err = False
+                            return ()
+                        raise Undecided("self.err assigned something else than None")
+                    if lhs["name"] == "offset":
+                        return ()  # only in eof(Start): moves the EOF position
+                    raise Undecided("assignment to self.%s" % lhs["name"])
+            raise Undecided("assignment target")
+        if k == "field":
+            base = self.eval(e["e"], env)
+            if isinstance(base, TokenVal):
+                if e["name"] == "kind":
+                    return base.kind
+                if e["name"] == "data":
+                    return base.data
+                return Opaque("token." + e["name"])
+            if base == "SELF":
+                return Opaque("self." + e["name"])
+            return Opaque("field")
+        if k == "index":
+            self.eval(e["e"], env)
+            return Opaque("slice")
+        if k == "continue":
+            raise _Continue()
+        if k == "ret":
+            raise _Return(self.eval(e["e"], env) if e.get("e") else ())
+        if k == "mcall":
+            return self.mcall(e, env)
+        if k == "call":
+            return self.call(e, env)
+        if k == "struct":
+            raise Undecided("struct expression inside the lexer loop")
+        if k == "tup":
+            return tuple(self.eval(x, env) for x in e["es"])
+        if k == "closure":
+            return Opaque("closure")
+        raise Undecided("expression kind `%s` in the lexer" % k)
+
+    def truth(self, v):
+        if not isinstance(v, bool):
+            raise Undecided("non-boolean condition %r in the lexer" % (v,))
+        return v
+
+    def mcall(self, e, env):
+        cal = e.get("callee") or ""
+        m = e["m"]
+        recv = self.eval(e["recv"], env)
+        if recv == "SELF":
+            if cal.endswith("Cursor::<'a>::bump"):
+                raise Undecided("bump() outside the loop head")
+            if cal.endswith("Cursor::<'a>::eatc"):
+                a = self.eval(e["args"][0], env)
+                return self.eatc(a)
+            if cal.endswith("Cursor::<'a>::is_pending"):
+                return self.cur.pending is not None
+            if cal.endswith("Cursor::<'a>::current_str"):
+                return self.current_str()
+            if cal.endswith("Cursor::<'a>::prev_str"):
+                return self.prev_str()
+            if cal.endswith("Cursor::<'a>::drain"):
+                return self.drain()
+            if cal.endswith("Cursor::<'a>::index"):
+                return Opaque("index")
+            if cal.endswith("Cursor::<'a>::add_err"):
+                self.eval(e["args"][0], env)
+                self.cur.err = True
+                return ()
+            if cal.endswith("Cursor::<'a>::err"):
+                return EnumVal("Some", [ErrVal(deferred=True)]) if self.cur.err else EnumVal("None")
+            if cal.endswith("Cursor<'a>>::done"):
+                return self.call_local(self.b_done, [self.eval(a, env) for a in e["args"]])
+            if cal.endswith("Cursor<'a>>::eof"):
+                return self.call_local(self.b_eof, [self.eval(a, env) for a in e["args"]])
+            if cal.endswith("Cursor<'a>>::unterminated_spread_operator"):
+                return self.call_local(self.b_unterm, [self.eval(a, env) for a in e["args"]])
+            raise Undecided("method %s on the cursor is outside the vocabulary" % cal)
+        args = [self.eval(a, env) for a in e["args"]]
+        if isinstance(recv, ErrVal):
+            if m == "set_data":
+                recv.data = args[0]
+                return ()
+            raise Undecided("method %s on an error value" % m)
+        if m in ("to_string", "to_owned", "into", "as_str") and not args:
+            return recv
+        if m == "len" and isinstance(recv, Opaque):
+            return Opaque("len")
+        if isinstance(recv, (Char, int)) and not isinstance(recv, bool):
+            from ..patset import CHAR_METHODS
+            if m in CHAR_METHODS and not args:
+                return CHAR_METHODS[m](int(recv))
+            raise Undecided("char method `%s` is outside the closed list" % m)
+        if m == "unwrap" and isinstance(recv, Opaque):
+            return recv
+        if m == "is_none" and isinstance(recv, Opaque) and recv.what == "from_u32":
+            # char::from_u32(code point of the four hex digits just consumed).is_none()
+            return self.cur.surrogate_oracle()
+        raise Undecided("method `%s` on %r in the lexer" % (m, recv))
+
+    def _undec(self, msg):
+        raise Undecided(msg)
+
+    def call(self, e, env):
+        c = e.get("callee")
+        if not c or c[0] != "def":
+            raise Undecided("indirect call in the lexer")
+        path = c[2]
+        if c[1].startswith("ctor"):
+            args = [self.eval(a, env) for a in e["args"]]
+            return EnumVal((c[4] if len(c) > 4 else c[2]).split("::")[-1], args)
+        if path.endswith("error::Error::with_loc"):
+            args = [self.eval(a, env) for a in e["args"]]
+            return ErrVal(data=args[1] if len(args) > 1 else None)
+        if path in ("std::hint::must_use", "std::fmt::format") or path.endswith("fmt::Arguments::<'a>::new"):
+            if self.has_effect(e):
+                raise Undecided("format! with side effects")
+            return Opaque("string")
+        if path.endswith("from_str_radix"):
+            for a in e["args"]:
+                self.eval(a, env)
+            return Opaque("from_str_radix")
+        if path.endswith("<impl char>::from_u32"):
+            return Opaque("from_u32")
+        if path.split("::")[0] == "apollo_parser":
+            args = [self.eval(a, env) for a in e["args"]]
+            if any(isinstance(a, (Opaque, TokenVal, ErrVal, Lexeme)) for a in args):
+                raise Undecided("local function %s called with a non-scalar value" % path)
+            return self.ev.call(path, args)
+        raise Undecided("call to %s in the lexer" % path)
+
+
+# ------------------------------------------------------------------------------------ reference
+
+LETTERS = set(map(ord, "ABCDEFGHIJKLMNOPQRSTUVWXYZabcdefghijklmnopqrstuvwxyz"))
+DIG = set(map(ord, "0123456789"))
+NAMESTART = LETTERS | {ord("_")}
+NAMECONT = NAMESTART | DIG
+WS = {0x09, 0x20, 0x0A, 0x0D, 0xFEFF}
+LT = {0x0A, 0x0D}
+HEX = set(map(ord, "0123456789abcdefABCDEF"))
+ESC = set(map(ord, '"\\/bfnrt'))
+PUNCT = {"!": "Bang", "$": "Dollar", "&": "Amp", "(": "LParen", ")": "RParen", ":": "Colon", "=": "Eq",
+         "@": "At", "[": "LBracket", "]": "RBracket", "{": "LCurly", "}": "RCurly", "|": "Pipe", ",": "Comma"}
+PUNCT = {ord(k): v for k, v in PUNCT.items()}
+Q, BS, DOT, MINUS, PLUS, HASH = ord('"'), ord("\\"), ord("."), ord("-"), ord("+"), ord("#")
+
+
+def ref_step(rs, s):
+    """reference machine.  rs is a tuple (name, bad, extra).  returns ('goto', rs') |
+    ('emit', kind, back, bad) | ('error',)."""
+    n, bad, x = rs
+    if n == "S":
+        if s == EOF:
+            return ("emit", "Eof", 0, False)
+        if s in PUNCT:
+            return ("emit", PUNCT[s], 0, False)
+        if s in NAMESTART:
+            return ("goto", ("NAME", False, None))
+        if s == ord("0"):
+            return ("goto", ("ZERO", False, "Int"))
+        if s in DIG:
+            return ("goto", ("INT", False, None))
+        if s == MINUS:
+            return ("goto", ("MINUS", False, None))
+        if s == Q:
+            return ("goto", ("Q1", False, None))
+        if s == HASH:
+            return ("goto", ("COMMENT", False, None))
+        if s == DOT:
+            return ("goto", ("DOT1", False, None))
+        if s in WS:
+            return ("goto", ("WS", False, None))
+        return ("error",)
+    if n == "NAME":
+        if s != EOF and s in NAMECONT:
+            return ("goto", rs)
+        return ("emit", "Name", 1 if s != EOF else 0, False)
+    if n == "WS":
+        if s != EOF and s in WS:
+            return ("goto", rs)
+        return ("emit", "Whitespace", 1 if s != EOF else 0, False)
+    if n == "COMMENT":
+        if s == EOF or s in LT:
+            return ("emit", "Comment", 1 if s != EOF else 0, False)
+        return ("goto", rs)
+    if n == "DOT1":
+        return ("goto", ("DOT2", False, None)) if s == DOT else ("error",)
+    if n == "DOT2":
+        return ("emit", "Spread", 0, False) if s == DOT else ("error",)
+    if n == "MINUS":
+        if s == ord("0"):
+            return ("goto", ("ZERO", False, None))
+        if s != EOF and s in DIG:
+            return ("goto", ("INT", False, None))
+        return ("error",)
+    if n in ("ZERO", "INT"):
+        if s == EOF:
+            return ("emit", "Int", 0, False)
+        if s in DIG:
+            return ("goto", rs) if n == "INT" else ("error",)
+        if s == DOT:
+            return ("goto", ("DEC", False, None))
+        if s in (ord("e"), ord("E")):
+            return ("goto", ("EXP", False, None))
+        if s in NAMESTART:
+            return ("error",)
+        return ("emit", "Int", 1, False)
+    if n == "DEC":
+        return ("goto", ("FRAC", False, None)) if (s != EOF and s in DIG) else ("error",)
+    if n == "FRAC":
+        if s == EOF:
+            return ("emit", "Float", 0, False)
+        if s in DIG:
+            return ("goto", rs)
+        if s in (ord("e"), ord("E")):
+            return ("goto", ("EXP", False, None))
+        if s == DOT or s in NAMESTART:
+            return ("error",)
+        return ("emit", "Float", 1, False)
+    if n == "EXP":
+        if s != EOF and s in DIG:
+            return ("goto", ("EXPD", False, None))
+        if s in (PLUS, MINUS):
+            return ("goto", ("EXPSIGN", False, None))
+        return ("error",)
+    if n == "EXPSIGN":
+        return ("goto", ("EXPD", False, None)) if (s != EOF and s in DIG) else ("error",)
+    if n == "EXPD":
+        if s == EOF:
+            return ("emit", "Float", 0, False)
+        if s in DIG:
+            return ("goto", rs)
+        if s == DOT or s in NAMESTART:
+            return ("error",)
+        return ("emit", "Float", 1, False)
+    # ---- strings
+    if n == "Q1":  # after the opening quote
+        if s == EOF:
+            return ("error",)
+        if s == Q:
+            return ("goto", ("Q2", False, None))
+        return ref_step(("STR", False, None), s)
+    if n == "Q2":  # after `""`
+        if s == Q:
+            return ("goto", ("BLOCK", False, None))
+        return ("emit", "StringValue", 1 if s != EOF else 0, False)
+    # (the first invalid construct inside a string makes the whole input invalid: `error`; where
+    # the erroneous fragment ends is not part of the property)
+    if n == "STR":
+        if s == EOF:
+            return ("error",)
+        if s == Q:
+            return ("emit", "StringValue", 0, False)
+        if s == BS:
+            return ("goto", ("STRESC", False, None))
+        if s in LT:
+            return ("error",)
+        return ("goto", rs)
+    if n == "STRESC":
+        if s != EOF and s in ESC:
+            return ("goto", ("STR", False, None))
+        if s == ord("u"):
+            return ("goto", ("STRU", False, (4, "")))
+        return ("error",)
+    if n == "STRU":
+        k, pre = x
+        if s == EOF or s not in HEX:
+            return ("error",)
+        pre2 = pre
+        if len(pre) == 0:
+            pre2 = "d" if s in (ord("d"), ord("D")) else "o"
+        elif len(pre) == 1:
+            pre2 = pre + ("s" if (pre == "d" and chr(s) in "89abcdefABCDEF") else "o")
+        if k == 1:
+            if pre2.startswith("ds"):
+                return ("error", "surrogate")  # documented exception: surrogate escapes are rejected
+            return ("goto", ("STR", False, None))
+        return ("goto", ("STRU", False, (k - 1, pre2)))
+    # ---- block strings
+    if n == "BLOCK":
+        if s == EOF:
+            return ("error",)
+        if s == Q:
+            return ("goto", ("BQ1", False, None))
+        if s == BS:
+            return ("goto", ("BESC0", False, None))
+        return ("goto", rs)
+    if n == "BQ1":
+        if s == EOF:
+            return ("error",)
+        if s == Q:
+            return ("goto", ("BQ2", False, None))
+        if s == BS:
+            return ("goto", ("BESC0", False, None))
+        return ("goto", ("BLOCK", False, None))
+    if n == "BQ2":
+        if s == EOF:
+            return ("error",)
+        if s == Q:
+            return ("emit", "StringValue", 0, False)
+        if s == BS:
+            return ("goto", ("BESC0", False, None))
+        return ("goto", ("BLOCK", False, None))
+    if n == "BESC0":  # after a backslash inside a block string
+        if s == EOF:
+            return ("error",)
+        if s == Q:
+            return ("goto", ("BESC1", False, None))
+        if s == BS:
+            return ("goto", ("BESC0", False, None))
+        return ("goto", ("BLOCK", False, None))
+    if n == "BESC1":  # after `\"`
+        if s == EOF:
+            return ("error",)
+        if s == Q:
+            return ("goto", ("BESC2", False, None))
+        if s == BS:
+            return ("goto", ("BESC0", False, None))
+        return ("goto", ("BLOCK", False, None))
+    if n == "BESC2":  # after `\""`
+        if s == EOF:
+            return ("error",)
+        if s == BS:
+            return ("goto", ("BESC0", False, None))
+        return ("goto", ("BLOCK", False, None))
+    raise AssertionError("reference state %s" % n)
+
+
+# ------------------------------------------------------------------------------------ product
+
+
+def show(sym):
+    if sym == EOF:
+        return "<EOF>"
+    if 0x21 <= sym <= 0x7E:
+        return chr(sym)
+    return "U+%04X" % sym
+
+
+def show_input(syms):
+    out = ""
+    for s in syms:
+        if s == EOF:
+            out += "<EOF>"
+        elif 0x20 <= s <= 0x7E and s != 0x5C:
+            out += chr(s)
+        elif s == 0x0A:
+            out += "\\n"
+        elif s == 0x0D:
+            out += "\\r"
+        elif s == 0x09:
+            out += "\\t"
+        elif s == 0x5C:
+            out += "\\\\"
+        else:
+            out += "\\u{%X}" % s
+    return out
+
+
+def explore(prog, sigma, max_configs=20000):
+    """Explore the product of the extracted lexer machine and the reference machine for ONE token
+    (every token starts from the same configuration: this is checked, see `leak`).  Returns
+    (stats, findings) where findings are dicts with a witness input."""
+    li = LexInterp(prog)
+    start = (li.init_state, li.init_kind, False, None, ("S", False, None), False)
+    parent = {start: None}
+    queue = [start]
+    findings = {}
+    stats = {"configs": 0, "iterations": 0, "token_ends": 0, "impl_states": set(), "ref_states": set(), "symbols": len(sigma) + 1,
+             "lookahead_forks": 0}
+
+    def witness(key, extra):
+        syms = []
+        k = key
+        while parent.get(k) is not None:
+            pk, fed = parent[k]
+            syms = list(fed) + syms
+            k = pk
+        return syms + list(extra)
+
+    def add(kind, key, fed, msg):
+        st = key[0].variant
+        fk = "%s|%s" % (st, kind)
+        if fk not in findings:
+            w = witness(key, fed)
+            findings[fk] = {"site": fk, "state": st, "kind": kind, "msg": msg, "input": show_input(w)}
+
+    def run(key, feed):
+        state, kind, err, pending, rs, eofseen = key
+        box = {"rs": rs, "events": [], "over": 0, "last": None}
+
+        def on_pull(s):
+            r = box["rs"]
+            if r == "DEAD":
+                return
+            if r == "DONE":
+                box["over"] += 1
+                return
+            res = ref_step(r, s)
+            box["last"] = res
+            if res[0] == "goto":
+                box["rs"] = res[1]
+            elif res[0] == "emit":
+                box["events"].append(res)
+                box["rs"] = "DONE"
+            else:
+                box["events"].append(res)
+                box["rs"] = "DEAD"
+
+        def sur():
+            return box["last"] is not None and box["last"][0] == "error" and len(box["last"]) > 1 and box["last"][1] == "surrogate"
+
+        cur = Cur(pending, err, feed, on_pull, sur)
+        cur.at_eof = eofseen  # the end of input was already seen by a look-ahead: bump() returns None
+        try:
+            res = li.iterate(state, EnumVal(kind.variant) if isinstance(kind, EnumVal) else kind, cur)
+        except NeedMore:
+            stats["lookahead_forks"] += 1
+            for s2 in list(sigma) + [EOF]:
+                run(key, feed + [s2])
+            return
+        stats["iterations"] += 1
+        at_eof = cur.at_eof
+        rs2 = box["rs"]
+        ev = box["events"]
+        if res[0] == "cont":
+            nstate, nkind = res[1], res[2]
+            if rs2 == "DONE":
+                e = ev[0]
+                add("munch", key, feed, "the lexer keeps reading in state %s where the grammar ends a %s token (%s the current character)" % (
+                    state.variant, e[1], "before" if e[2] else "after"))
+                return
+            nk = (nstate, nkind, cur.err, cur.pending if cur.pending != "LAST" else None, rs2, cur.at_eof)
+            if cur.pending == "LAST":
+                add("partition", key, feed, "prev_str() pushes the current character back but the lexer keeps lexing the same token: the character is read twice")
+                return
+            if nk not in parent:
+                if len(parent) >= max_configs:
+                    raise Undecided("lexer product exploration exceeds %d configurations" % max_configs)
+                parent[nk] = (key, feed)
+                queue.append(nk)
+            return
+        # token end
+        stats["token_ends"] += 1
+        _e, verdict, k2, lex = res
+        back = lex.back if isinstance(lex, Lexeme) else 0
+        rest = isinstance(lex, Lexeme) and lex.rest
+        if rest and not at_eof:
+            add("partition", key, feed, "drain() takes the rest of the input as one fragment although the end of input has not been reached")
+        if not at_eof:
+            has_p = cur.pending is not None
+            if back == 1 and not has_p:
+                add("partition", key, feed, "the lexeme excludes the current character but the character is not pushed back: it is lost")
+            if back == 0 and has_p and verdict == "ok":
+                add("partition", key, feed, "the lexeme includes a character that is also pushed back: it is read twice")
+            if box["over"]:
+                add("partition", key, feed, "the lexer pulled %d character(s) beyond the end of the token without pushing them back" % box["over"])
+        if verdict == "ok":
+            kn = k2.variant if isinstance(k2, EnumVal) else str(k2)
+            if cur.err and not at_eof:
+                add("leak", key, feed, "a token is returned as Ok while a deferred error is still stored in the cursor: the next token will be reported as an error")
+            if rs2 == "DEAD" or (ev and ev[0][0] == "error"):
+                add("accepts-invalid", key, feed, "the lexer returns an Ok(%s) token for text that is not a valid token of the lexical grammar" % kn)
+            elif rs2 != "DONE":
+                add("short", key, feed, "the lexer ends an Ok(%s) token where the grammar continues the token (maximal munch / look-ahead restriction)" % kn)
+            else:
+                e = ev[0]
+                if e[1] != kn:
+                    add("kind", key, feed, "the lexer returns kind %s for a token the grammar classifies as %s" % (kn, e[1]))
+                elif e[2] != back:
+                    add("boundary", key, feed, "the %s token %s the current character, the grammar's token %s it" % (
+                        kn, "excludes" if back else "includes", "excludes" if e[2] else "includes"))
+        else:
+            if rs2 == "DONE" and ev and ev[0][0] == "emit":
+                add("rejects-valid", key, feed, "the lexer reports an error where the grammar has a valid %s token" % ev[0][1])
+            elif rs2 not in ("DEAD", "DONE"):
+                add("rejects-valid", key, feed, "the lexer reports an error on a prefix that the grammar can still complete to a valid token (reference state %s)" % rs2[0])
+
+    while queue:
+        key = queue.pop(0)
+        stats["configs"] += 1
+        stats["impl_states"].add(repr(key[0]))
+        stats["ref_states"].add(key[4] if isinstance(key[4], str) else key[4][0])
+        if key[3] is not None or key[5]:
+            run(key, [])
+        else:
+            for s in list(sigma) + [EOF]:
+                run(key, [s])
+    stats["impl_states"] = sorted(stats["impl_states"])
+    stats["ref_states"] = sorted(stats["ref_states"])
+    return stats, list(findings.values())
+
+
+EXPECTED_IMPL_STATES = 19  # variants of enum State that must be reached (EscapedUnicode counted once)
+
+
+def run(prog, rep, ev=None, sigma=None):
+    """C03.DFA: product exploration; one rule instance per reachable product configuration class"""
+    from ..patset import CHAR_DOMAIN
+    rep.floor("C03.DFA", 100)
+    sigma = sigma or [int(c) for c in CHAR_DOMAIN]
+    stats, fs = explore(prog, sigma)
+    adv = prog.fn(r"lexer::<impl apollo_parser::lexer::cursor::Cursor<'a>>::advance$")
+    reached = set(s.split("(")[0] for s in stats["impl_states"])
+    st_adt = prog.adt(r"^apollo_parser::lexer::State$")
+    all_states = set(v["name"] for v in st_adt["variants"])
+    for s in sorted(all_states - reached):
+        rep.finding("C03.DFA", adv.name, "unreachable-state:" + s, "lexer state %s is never reached from the start state over the whole alphabet: a transition into it was lost" % s, adv.loc())
+    rep.instance("C03.DFA", "product of the extracted lexer machine (%d states reached: %s) and the reference machine of the lexical grammar (%d states): %d product configurations, %d transitions over %d symbols (every ASCII code point, representatives of the non-ASCII classes, end of input), %d token ends compared (kind, boundary, error/no error), %d look-ahead forks" % (
+        len(stats["impl_states"]), ", ".join(stats["impl_states"]), len(stats["ref_states"]), stats["configs"], stats["iterations"], stats["symbols"], stats["token_ends"], stats["lookahead_forks"]))
+    # count every compared transition as an instance (for the floor): a vacuous exploration fails
+    rep.rule_counts["C03.DFA"] += stats["iterations"]
+    rep.extra["dfa"] = {k: v for k, v in stats.items()}
+    for f in fs:
+        rep.finding("C03.DFA", adv.name, f["site"], "%s; witness input: `%s`" % (f["msg"], f["input"]), adv.loc(), detail=f)
+    rep.assume("Cursor primitives bump/eatc/current_str/prev_str/drain/is_pending behave as modelled over the symbolic cursor (their bodies: C02/C03.PARTITION, C01 inventory)")
+    rep.assume("reference choices: SourceCharacter = any Unicode scalar value inside strings and comments; runs of ignored whitespace (TAB, SP, LF, CR, BOM) form one Whitespace token; `,` is a Comma token; braced and surrogate unicode escapes are invalid")
